@@ -1724,7 +1724,12 @@ func sortedMapKeys(m reflect.Value) []reflect.Value {
 		case a.Kind() == reflect.String && b.Kind() == reflect.String:
 			return a.String() < b.String()
 		}
-		return fmt.Sprint(keys[i].Interface()) < fmt.Sprint(keys[j].Interface())
+		si, sj := fmt.Sprint(keys[i].Interface()), fmt.Sprint(keys[j].Interface())
+		if si != sj {
+			return si < sj
+		}
+		// Keys of different types can print alike (1.5 and "1.5" in a map[interface{}]…)
+		return fmt.Sprintf("%T", keys[i].Interface()) < fmt.Sprintf("%T", keys[j].Interface())
 	})
 	return keys
 }
